@@ -63,9 +63,24 @@ func vpH_C10_T_prompt() {
 			}
 		}
 	}()
-	vpDelay("start", 0, H)
+	if vpChoose("start", 2) == 0 {
+		time.Sleep(H / 4)
+	} else {
+		time.Sleep(H - 25*time.Millisecond) // just before a heartbeat of the incumbent
+	}
 	t0 := vpNow()
 	kv := vpHandle(st, "a")
+	// adversarial timing: the first k (0..2) reads of the candidate's takeover attempts are each followed at once
+	// by a refresh of the incumbent, so that the conditional write loses the race (start-up attempt, then the
+	// first watch-triggered attempt); afterwards the incumbent only heartbeats every H
+	lost := vpChoose("lost-races", 3)
+	kv.afterApply = func(op string) {
+		if op == "get" && lost > 0 && st.live() && st.writer == "env:other" {
+			lost--
+			st.write("env:other", "update", vpRecMk("other", "tok-other", 1), false, st.lastSeq)
+			vpEvent("race-lost")
+		}
+	}
 	cfg := vpBaseConfig("a", H, 3*H)
 	cfg.ValidationInterval = time.Hour
 	cfg.Priority = 5
